@@ -264,6 +264,49 @@ def load_known_findings():
     return out
 
 
+def attribute_compile_errors(out, units, disabled):
+    """Map rustc errors of the woven crate to fn items of the woven cfg(kani) modules.
+    -> list of (target, fn name, first error line) not yet disabled; [] when an error cannot be attributed."""
+    import rustscan
+    targets = {u.target for u in units}
+    found, unattributed = [], 0
+    for blk in re.split(r'\n(?=error)', out):
+        if not blk.startswith('error') or blk.startswith('error: could not compile') or blk.startswith('error: aborting'):
+            continue
+        m = re.search(r'-->\s+(src/[^:\s]+):(\d+):\d+', blk)
+        if not m:
+            continue
+        rel, ln = m.group(1), int(m.group(2))
+        msg = blk.split('\n', 1)[0]
+        if rel not in targets:
+            unattributed += 1
+            continue
+        try:
+            src = open(os.path.join(WOVEN, rel)).read()
+            items = rustscan.scan_items(src)
+        except (OSError, rustscan.ScanError):
+            unattributed += 1
+            continue
+        off = 0
+        for _ in range(ln - 1):
+            off = src.find('\n', off) + 1
+        hit = None
+        for it in items:
+            if it.kind == 'fn' and it.start <= off < it.end:
+                p = it.parent
+                if p is not None and p.kind == 'mod' and p.name.startswith('verif_'):
+                    if hit is None or it.start > hit.start:
+                        hit = it
+        if hit is None:
+            # an error on a woven contract attribute line (e.g. the annotated fn changed its signature):
+            # leave out the proof_for_contract harnesses -- not attempted; report as unattributed
+            unattributed += 1
+            continue
+        if (rel, hit.name) not in disabled and not any(f[0] == rel and f[1] == hit.name for f in found):
+            found.append((rel, hit.name, msg))
+    return found
+
+
 # ----------------------------------------------------------------------------- main
 def main():
     ap = argparse.ArgumentParser()
@@ -285,8 +328,13 @@ def main():
         sys.exit(2)
 
     # 1. weave from the current working tree
+    # `disabled`: harness / helper fns of the woven cfg(kani) modules that do not compile against the edited
+    # source (e.g. the function they call was removed or changed its signature); `lost`: contract attributes
+    # whose anchor function no longer exists.  Both make the affected obligations UNDECIDED -- the remaining
+    # obligations of the property are still decided (a refuted one is still reported as a violation).
+    disabled, lost = set(), []
     try:
-        units, written = weave_mod.weave(REPO, WOVEN, CONTRACTS)
+        units, written = weave_mod.weave(REPO, WOVEN, CONTRACTS, disabled, lost)
     except weave_mod.WeaveError as e:
         tooling('weave: %s' % e)
     shutil.copyfile(os.path.join(REPO, 'Cargo.lock'), os.path.join(WOVEN, 'Cargo.lock'))
@@ -316,6 +364,7 @@ def main():
     default_budget = 400 if args.tier == 'quick' else 1200
     results = {}
     kani_wall = 0.0
+    not_compiled = {}
     if hs:
         groups = {}
         for h in hs:
@@ -327,11 +376,40 @@ def main():
         for h in hs:
             cmd += ['--harness', full_name(h)]
         overall = 240 + budget * (1 + len(hs) // JOBS)
-        rc, out, kani_wall, timed_out, killed = run_cmd(cmd, WOVEN, overall, KANI_ENV,
-                                                        os.path.join(BUILD, 'kani-%s.log' % prop))
-        if 'error: could not compile' in out or 'error[E' in out or 'Failed to execute cargo' in out or 'Failed to match the following harness' in out:
-            errs = re.findall(r'^error.*$', out, re.M)[:6]
-            tooling('woven tree does not compile under Kani: %s' % ' | '.join(errs))
+        compile_notes = {}
+        for attempt in range(8):
+            rc, out, wall_i, timed_out, killed = run_cmd(cmd, WOVEN, overall, KANI_ENV,
+                                                         os.path.join(BUILD, 'kani-%s.log' % prop))
+            kani_wall += wall_i
+            if not ('error: could not compile' in out or 'error[E' in out or 'Failed to execute cargo' in out or 'Failed to match the following harness' in out):
+                break
+            # attribute every compile error to a fn of a woven cfg(kani) module; leave exactly those out
+            newly = attribute_compile_errors(out, units, disabled)
+            if not newly:
+                errs = re.findall(r'^error.*$', out, re.M)[:6]
+                tooling('woven tree does not compile under Kani: %s' % ' | '.join(errs))
+            for (t, n, msg) in newly:
+                disabled.add((t, n))
+                compile_notes[n] = msg
+                log('note: woven fn %s (%s) does not compile against the edited source and is left out: %s' % (n, t, msg[:160]))
+            lost = []
+            try:
+                units, written = weave_mod.weave(REPO, WOVEN, CONTRACTS, disabled, lost)
+            except weave_mod.WeaveError as e:
+                tooling('weave: %s' % e)
+            shutil.copyfile(os.path.join(REPO, 'Cargo.lock'), os.path.join(WOVEN, 'Cargo.lock'))
+            dropped_h = [h for h in hs if (h.target, h.name) in disabled]
+            for h in dropped_h:
+                not_compiled[h.name] = compile_notes.get(h.name, 'does not compile against the edited source')
+            hs_run = [h for h in hs if (h.target, h.name) not in disabled]
+            cmd = KANI_BASE + ['--harness-timeout', '%ds' % budget, '-j', str(JOBS), '--output-format', 'terse', '--exact']
+            for h in hs_run:
+                cmd += ['--harness', full_name(h)]
+            if not hs_run:
+                out = ''
+                break
+        else:
+            tooling('woven tree still does not compile after leaving out %d fn(s)' % len(disabled))
         results = parse_terse(out, [h.name for h in hs])
         if timed_out:
             for r in results.values():
@@ -357,7 +435,14 @@ def main():
     # 4. classify
     known = load_known_findings()
     obligations, violations, undecided, known_hits = [], [], [], []
+    for (rel, impl_, fn_, why_) in lost:
+        log('note: contract attribute for %s%s (%s) has lost its anchor: %s' % ((impl_ + '::') if impl_ else '', fn_, rel, why_))
     for h in hs:
+        if h.name in not_compiled:
+            obligations.append({'obligation': h.name, 'engine': 'kani/cbmc+cadical', 'kind': h.kind, 'functions': h.fns,
+                                'contract': h.desc, 'bound': h.bound, 'solver_s': 0, 'checks': 0, 'covers': '0/0', 'verdict': 'undecided'})
+            undecided.append((h, 'the obligation no longer compiles against the edited source (lost anchor / changed signature): %s' % not_compiled[h.name][:200]))
+            continue
         r = results[h.name]
         ob = {'obligation': h.name, 'engine': 'kani/cbmc+cadical', 'kind': h.kind, 'functions': h.fns,
               'contract': h.desc, 'bound': h.bound or ('none (loop-free or fully unwound, full input domain)' if h.kind == 'proof' else ''),
@@ -523,6 +608,12 @@ def replay_kani(h, descs, prop):
     if not tname:
         return info
     stub_targets = re.findall(r'#\[kani::stub\(\s*([^,\s]+)', h.text or '')
+    uninterp = re.findall(r'#\[kani::stub\(\s*[^,\s]+\s*,\s*(uninterp_\w+)', h.text or '')
+    if uninterp:
+        # the callee is replaced by an UNINTERPRETED function inside the verifier; natively the real callee
+        # runs, so the harness' assertion (stated against the uninterpreted function) means nothing there
+        info['note'] = 'native replay not attempted: the obligation is stated against an uninterpreted model of a dependency (%s)' % ', '.join(uninterp)
+        return info
     if any(not re.match(r'(f64|f32|std|core|alloc)::', t) for t in stub_targets):
         # a stubbed callee exists only inside the verifier: running the harness natively would call the
         # real callee (for C20: on a fabricated FilterPattern) -- not meaningful, so not attempted
